@@ -48,11 +48,15 @@ PROVED = (
     'crash-on-empty-sample / answer, classified exactly; reference = smallest id of the first sample with >= 2 stations; '
     'for consistent per-sample poses over any group the answer is the truth in the frame of that sample\'s Crazyflie. '
     'Decision logic with the numeric kernels as parameters (C09/Decide.v): if the true candidates of a station pair share '
-    'one bucket and every bucket holding a non-true candidate is strictly smaller, the vote returns exactly the true bucket '
+    'one bucket and every bucket holding a non-true candidate is strictly smaller (not larger when it comes later: the '
+    'first largest bucket wins), the vote returns exactly the true bucket; there is no count threshold on pairs '
+    '(C09_every_seen_pair_voted_partial, C09_pair_count_threshold_refuted) '
     '(C09_vote_sufficient_partial); if true pairs are strictly nearest to the voted position and inside the outlier bound, '
     '_choose_solutions succeeds with a true pair (C09_choose_sufficient_partial); then the sample is kept with true poses '
     '(C09_angles_to_poses_sufficient_partial); every station gets its pose exactly once. Premise-failing configurations '
     'proved for F09b, F09e, near-coincident stations. '
+    'LighthouseBsVectors.projection_pair_list/angle_list are functions of the current contents after any history of '
+    'in-place updates and reads (C09_container_reads_are_pure; C09_length_keyed_cache_refuted). '
     'EXTENSION outside the quantifier: calls built from steps that touch no shared state return, under every '
     'interleaving, what they return alone (C09_local_steps_commute, C09_overlapping_estimates_independent; '
     'C09_shared_scratch_refuted for a class-level scratch cell). '
@@ -90,7 +94,7 @@ def generate(ctx):
 # ---------------------------------------------------------------------------------------------- matcher: cases
 
 HEADER = '''From Coq Require Import QArith Qabs.
-From CF Require Import Common.Bytes C09.Model C09.Vote C09.Decide.
+From CF Require Import Common.Bytes C09.Model C09.Vote C09.Decide C09.Container.
 Open Scope Z_scope.
 Definition flat_sample (s : Z * list (Z * Z)) : list Z :=
   fst s :: Z.of_nat (length (snd s)) :: flat_map (fun e => [fst e; snd e]) (snd s).
@@ -116,6 +120,8 @@ Definition enc_opt (o : option (list (Z * Q))) : list Z :=
   match o with None => [-1] | Some d => Z.of_nat (length d) :: flat_map (fun e => fst e :: encq (snd e)) d end.
 Definition run_decide (ss : list (list (Z * list Q))) : list Z :=
   flat_map enc_opt (decide qdist qlt (4 # 5)%Q (1 # 2)%Q (100000 # 1)%Q qmean qrel 0%Q ss).
+Definition run_container (ops : list cop) (l : list bsvec) : list Z :=
+  flat_map (fun r => Z.of_nat (length r) :: r) (reads ops l).
 Definition encp (e : Z * Z) : Z := fst e * 4294967296 + (snd e + 2147483648).
 Definition enc_lres (r : lres (list (Z * Z))) : list Z :=
   match r with LOk bp => 1 :: sort_ids (map encp bp) | LRaise => [2] | LFuel => [3] end.
@@ -694,7 +700,8 @@ def _check_decide(case):
         if len(homes) != 1 or sum(ist[homes[0]]) != n_true:
             return None
         h = homes[0]
-        if any((not all(ist[r])) and len(buckets[r]) >= len(buckets[h]) for r in range(4)):
+        if any((not all(ist[r])) and (r == h or (r < h and len(buckets[r]) >= len(buckets[h]))
+                                      or (r > h and len(buckets[r]) > len(buckets[h]))) for r in range(4)):
             return None
         expected[(i, j)] = sum(buckets[h]) / len(buckets[h])
     for d in samples:
@@ -825,6 +832,8 @@ def _tie_premise(ctx, dis, info):
     R = _rooms()
     rooms = [('random', R.gen_room(ctx.rng, n_cf=ctx.rng.randint(3, 14))) for _ in range(ctx.scale(50, 600))]
     rooms += [('structured', R.gen_structured_room(ctx.rng)) for _ in range(ctx.scale(20, 200))]
+    rooms += [('sparse_link_21_40_poses', R.gen_sparse_link_room(ctx.rng, need_premise=False))
+              for _ in range(ctx.scale(6, 60))]
     rooms = [(k, c) for k, c in rooms if len(R.linked_components([s for s in c['vis'] if len(set(s)) >= 2])) == 1]
     try:
         import multiprocessing as mp
@@ -858,6 +867,126 @@ def _tie_premise(ctx, dis, info):
     return len(rooms), n_hold, [{'premise_on_rooms': stats}]
 
 
+# ---- Wave 11: LighthouseBsVectors array functions after in-place updates (reads before the update prime any cache)
+def _container_cases(ctx, n):
+    """Angles k * 1e-6 rad with integer k (exact round trip float <-> integer)."""
+    def vec():
+        return [ctx.rng.randint(-900000, 900000), ctx.rng.randint(-700000, 700000)]
+    cases = []
+    for k in range(n):
+        ln = ctx.rng.choice([4, 4, 4, 1, 2, 3, 6])
+        a = [vec() for _ in range(ln)]
+        steps = []
+        cur = ln
+        for _ in range(ctx.rng.randint(2, 7)):
+            r = ctx.rng.random()
+            if r < 0.35 or not steps:
+                steps.append(['read'])
+            elif r < 0.5 and cur > 0:
+                steps.append(['item', ctx.rng.randrange(cur), vec()])
+            elif r < 0.65:
+                steps.append(['slice', [vec() for _ in range(cur if ctx.rng.random() < 0.8 else ctx.rng.randint(0, 6))]])
+                cur = len(steps[-1][1])
+            elif r < 0.8:
+                steps.append(['clear_extend', [vec() for _ in range(cur if ctx.rng.random() < 0.8 else ctx.rng.randint(0, 6))]])
+                cur = len(steps[-1][1])
+            elif r < 0.87:
+                steps.append(['append', vec()])
+                cur += 1
+            elif r < 0.93 and cur > 0:
+                steps.append(['pop'])
+                cur -= 1
+            else:
+                steps.append(['reverse'])
+        steps.append(['read'])
+        cases.append({'kind': 'container', 'a_micro': a, 'steps_micro': steps})
+    return cases
+
+
+def _container_float(case):
+    """The same case with angles in radians (what the implementation is fed)."""
+    def f(p):
+        return [p[0] * 1e-6, p[1] * 1e-6]
+    steps = []
+    for st in case['steps_micro']:
+        if st[0] == 'item':
+            steps.append(['item', st[1], f(st[2])])
+        elif st[0] in ('slice', 'clear_extend'):
+            steps.append([st[0], [f(p) for p in st[1]]])
+        elif st[0] == 'append':
+            steps.append(['append', f(st[1])])
+        else:
+            steps.append(list(st))
+    return {'kind': 'container', 'a': [f(p) for p in case['a_micro']], 'steps': steps}
+
+
+def _impl_container(case):
+    """angle_list() at every read of the history, as integers (micro-radians)."""
+    from cflib.localization.lighthouse_bs_vector import LighthouseBsVector, LighthouseBsVectors
+    fc = _container_float(case)
+
+    def vec(p):
+        return LighthouseBsVector(p[0], p[1])
+    c = LighthouseBsVectors([vec(p) for p in fc['a']])
+    out = []
+    try:
+        for st in fc['steps']:
+            if st[0] == 'read':
+                c.projection_pair_list()
+                al = [float(x) for x in c.angle_list()]
+                out += [len(al)] + [int(round(x * 1e6)) for x in al]
+            elif st[0] == 'item':
+                c[st[1]] = vec(st[2])
+            elif st[0] == 'slice':
+                c[:] = [vec(p) for p in st[1]]
+            elif st[0] == 'clear_extend':
+                c.clear()
+                c.extend([vec(p) for p in st[1]])
+            elif st[0] == 'append':
+                c.append(vec(st[1]))
+            elif st[0] == 'pop':
+                c.pop()
+            elif st[0] == 'reverse':
+                c.reverse()
+    except Exception as e:  # noqa
+        return ['raise', type(e).__name__]
+    return out
+
+
+def _cop(st):
+    def v(p):
+        return '(%s, %s)' % (coqrun.z(p[0]), coqrun.z(p[1]))
+    if st[0] == 'read':
+        return 'CRead'
+    if st[0] == 'item':
+        return 'CItem %d %s' % (st[1], v(st[2]))
+    if st[0] in ('slice', 'clear_extend'):
+        return '%s [%s]' % ('CSlice' if st[0] == 'slice' else 'CClearExtend', '; '.join(v(p) for p in st[1]))
+    if st[0] == 'append':
+        return 'CAppend %s' % v(st[1])
+    return 'CPop' if st[0] == 'pop' else 'CReverse'
+
+
+def _tie_container(ctx, dis, info):
+    cases = _container_cases(ctx, ctx.scale(200, 3000))
+    impl = [_impl_container(c) for c in cases]
+    terms = ['run_container [%s] [%s]' % ('; '.join(_cop(st) for st in c['steps_micro']),
+                                         '; '.join('(%s, %s)' % (coqrun.z(p[0]), coqrun.z(p[1])) for p in c['a_micro']))
+             for c in cases]
+    model = _eval_blocks(terms, impl, 'c09c', B=50)
+    n_mut = 0
+    for c, mv, iv in zip(cases, model, impl):
+        kinds = [st[0] for st in c['steps_micro']]
+        first_read = kinds.index('read')
+        if any(k in ('item', 'slice', 'clear_extend', 'reverse') for k in kinds[first_read:]):
+            n_mut += 1
+        if mv != iv and len(dis) < 30:
+            dis.append({'what': 'LighthouseBsVectors.angle_list after in-place updates: model (C09/Container.v) and '
+                                'implementation differ', 'case': _container_float(c), 'model': mv, 'impl': iv})
+    info['container'] = {'cases': len(cases), 'with_in_place_update_after_a_read': n_mut}
+    return len(cases), n_mut, [{'container_steps': cases[0]['steps_micro'][:4]}]
+
+
 def tie(ctx):
     dis = []
     info = {}
@@ -866,11 +995,12 @@ def tie(ctx):
     n3, nt3, s3 = _tie_vote(ctx, dis, info)
     n4, nt4, s4 = _tie_decide(ctx, dis, info)
     n5, nt5, s5 = _tie_premise(ctx, dis, info)
-    return {'evaluations': n1 + n2 + n3 + n4 + n5, 'distinct_nontrivial': nt1 + nt2 + nt3 + nt4 + nt5,
+    n6, nt6, s6 = _tie_container(ctx, dis, info)
+    return {'evaluations': n1 + n2 + n3 + n4 + n5 + n6, 'distinct_nontrivial': nt1 + nt2 + nt3 + nt4 + nt5 + nt6,
             'rule': 'matcher: >= 2 output samples and some measurement overwritten or filtered; linkage: >= 3 stations '
                     'and (raises or resolves >= 2 stations beyond the known ones); vote: a mirror candidate ends up in '
                     'the winning bucket although every sample contains the exact truth',
-            'samples': s1[:1] + s2[:1] + s3 + s4 + s5, 'distribution': info, 'exhaustive': False, 'disagreements': dis}
+            'samples': s1[:1] + s2[:1] + s3 + s4 + s5 + s6, 'distribution': info, 'exhaustive': False, 'disagreements': dis}
 
 
 # ---------------------------------------------------------------------------------------------- oracle
@@ -995,6 +1125,12 @@ def _check_case(case, ctx=None):
         return _check_average(case)
     if kind == 'decide':
         return _check_decide(case) or None
+    if kind in ('reuse', 'container'):
+        from fakes import c09_overlap
+        j = c09_overlap.check_reuse(case) if kind == 'reuse' else c09_overlap.check_container(case)
+        if j:
+            return {'class': j[0], 'case': case, 'expected': j[1], 'observed': j[2], 'detail': j[3]}
+        return None
     if kind == 'overlap':
         from fakes import c09_overlap
         j = c09_overlap.check(case)
@@ -1164,6 +1300,25 @@ def oracle(ctx, deep=False):
         elif f and not any(x['class'] == f['class'] for x in failures):
             failures.append(f)
     prem['scripted_candidates'] = {'premise_holds_and_right': n_prem}
+    # ---- Wave 11: measurement containers refilled in place between two pipeline runs; container functions by formula
+    from fakes import c09_overlap as _ov
+    for c in _container_cases(ctx, ctx.scale(150, 2000)):
+        n += 1
+        f = _check_case(_container_float(c))
+        if f and not any(x['class'] == f['class'] for x in failures):
+            failures.append(f)
+    rcases = []
+    for k in range(ctx.scale(3, 24) * (2 if deep else 1)):
+        n_bs = ctx.rng.randint(2, 4)
+        n_cf = ctx.rng.randint(3, 6)
+        rcases.append({'kind': 'reuse', 'op': _ov.REFILL_OPS[k % 3],
+                       'rooms': [R.gen_room(ctx.rng, n_bs=n_bs, n_cf=n_cf, mode=ctx.rng.choice(['full', 'chain'])),
+                                 R.gen_room(ctx.rng, n_bs=n_bs, n_cf=n_cf, mode='full')]})
+    for c in rcases:
+        n += 1
+        f = _check_case(c)
+        if f and not any(x['class'] == f['class'] for x in failures):
+            failures.append(f)
     # ---- EXTENSION (outside C09's quantifier): a call's result is a function of its arguments, also when calls for
     #      different rooms overlap in time (threads in deterministic lock-step, hand-over where inputs are iterated)
     ocases = _overlap_cases(ctx, ctx.scale(3, 20) * (2 if deep else 1))
@@ -1198,6 +1353,16 @@ def oracle(ctx, deep=False):
             su_known += j[0] in KNOWN_RATE_CLASSES
             if not any(x['class'] == j[0] for x in failures):
                 failures.append(_room_failure(case, j, 'room'))
+    # ---- Wave 12: 21..40 poses, a station pair shared by exactly ONE sample (the first sample's pair / the only link of
+    #      a station); drawn so that the premise holds: every error-free sample kept, every linked station answered,
+    #      frame of the first sample
+    spcases = [R.gen_sparse_link_room(ctx.rng, variant=('first_pair_once', 'only_link_once')[k % 2])
+               for k in range(ctx.scale(4, 40) * (2 if deep else 1))]
+    for case, (j, pr) in zip(spcases, _run_rooms(spcases, False)):
+        n += 1
+        _count_premise(prem, 'sparse_link_21_40_poses', pr, j)
+        if j and not any(x['class'] == j[0] for x in failures):
+            failures.append(_room_failure(case, j, 'room'))
     # ---- rooms with IPPE replaced by the exact pose: everything after IPPE must be right, without exception
     n_exact = ctx.scale(120, 1500) * (3 if deep else 1)
     ecases = [R.gen_room(ctx.rng) for _ in range(n_exact)]
@@ -1235,7 +1400,7 @@ def oracle(ctx, deep=False):
             'distribution': {'rooms': n_rooms, 'rooms_exact_ippe': n_exact, 'modes': modes,
                              'known_class_failures': n_known, 'structured_rooms_exact_ippe': n_sx,
                              'structured_rooms': n_su, 'structured_known_class_failures': su_known,
-                             'average_cases': len(acases), 'decision_premise': prem, 'overlapping_call_histories': len(ocases)}}
+                             'average_cases': len(acases), 'reuse_histories': len(rcases), 'sparse_link_rooms': len(spcases), 'decision_premise': prem, 'overlapping_call_histories': len(ocases)}}
 
 
 def replay(payload, ctx):
